@@ -127,6 +127,9 @@ Proof.
   destruct ecn; safe_auto.
 Qed.
 
+Lemma safe_ack_verify f : safe (ack_verify f).
+Proof. unfold ack_verify. destruct f; try apply safe_ret. destruct (ack_valid _ _ _); [apply safe_ret|apply safe_bad]. Qed.
+
 Lemma safe_be_close_app : safe be_close_app.
 Proof. unfold be_close_app. safe_auto. Qed.
 
@@ -185,7 +188,7 @@ Lemma safe_be_body t : safe (be_body t).
 Proof.
   destruct t; cbn [be_body];
     try solve [ safe_auto
-              | apply safe_be_ack
+              | apply safe_bind; [apply safe_be_ack|intro; apply safe_ack_verify]
               | apply safe_be_new_cid
               | safe_auto; apply safe_cut
               | safe_auto2 ].
